@@ -60,6 +60,7 @@ pub fn c01(ctx: &Ctx) -> Collector {
     run_histories(&col, 22, &p, ctx.tier.thorough());
     run_space(&col, 23, &spaces::s_antimask(ctx.tier.thorough()), &p, true, &no_extra);
     run_space(&col, 24, &s_corpus(), &p, true, &no_extra);
+    run_space(&col, 26, &spaces::s_cw(ctx.tier.thorough()), &p, true, &no_extra);
     if !ctx.tier.thorough() {
         run_space(&col, 25, &s_forced_versions(false), &p, true, &no_extra);
     }
@@ -86,6 +87,7 @@ pub fn c02(ctx: &Ctx) -> Collector {
     run_space(&col, 12, &spaces::s_forced_dense(ctx.tier.thorough()), &p, true, &no_extra);
     run_histories(&col, 13, &p, ctx.tier.thorough());
     run_space(&col, 14, &spaces::s_antimask(ctx.tier.thorough()), &p, true, &no_extra);
+    run_space(&col, 15, &spaces::s_cw(ctx.tier.thorough()), &p, true, &no_extra);
     crate::props::c02x::corruption(ctx, &col);
     col
 }
@@ -134,6 +136,7 @@ pub fn c03(ctx: &Ctx) -> Collector {
     run_space(&col, 1, &spaces::s_opt(ctx.tier.thorough()), &p, true, &no_extra);
     run_space(&col, 2, &spaces::s_len(Family::Ctr, if ctx.tier.thorough() { 7200 } else { 0 }), &p, true, &no_extra);
     run_histories(&col, 4, &p, ctx.tier.thorough());
+    run_space(&col, 5, &spaces::s_cap_families(ctx.tier.thorough()), &p, true, &no_extra);
     if ctx.tier.thorough() {
         run_space(&col, 3, &spaces::s_len(Family::Hi, 7200), &p, true, &no_extra);
     }
@@ -152,6 +155,8 @@ pub fn c04(ctx: &Ctx) -> Collector {
     run_histories(&col, 5, &p, ctx.tier.thorough());
     // forced versions at capacity thresholds, with and without a level (default Q must not silently become M or L)
     run_space(&col, 6, &s_forced_versions(false), &p, true, &no_extra);
+    run_space(&col, 7, &s_default_level_big(), &p, true, &no_extra);
+    run_space(&col, 8, &s_forced_mask_extreme(), &p, true, &no_extra);
     if ctx.tier.thorough() {
         run_space(&col, 3, &spaces::s_len(Family::Ctr, 7200), &p, true, &no_extra);
     }
@@ -165,6 +170,44 @@ pub fn s_len_utf8(thorough: bool) -> Space {
     sp.name = format!("S_len[utf8]{}", if thorough { "" } else { "/quick" });
     sp.describe = format!("byte mode x 4 levels x {} with valid UTF-8 text of 2-, 3- and 4-byte characters (character count < byte count), version+mask automatic", if thorough { "every length 0..=7200" } else { "lengths 0..=128, all capacity thresholds -1/0/+1, every 7th length" });
     sp
+}
+
+/// no level given (default Q) with payloads around the version-40 capacities at Q, M and L of each mode: beyond the
+/// capacity at Q the build must be refused, not answered with a weaker level
+pub fn s_default_level_big() -> Space {
+    let mut cases = vec![];
+    for m in 0..3usize {
+        let mut lens = vec![];
+        for e in [2usize, 1, 0] {
+            let c = r::cap(40, e, m);
+            lens.extend([c - 1, c, c + 1]);
+        }
+        for v in [10usize, 20, 30, 39] {
+            lens.extend([r::cap(v, 2, m), r::cap(v, 2, m) + 1]);
+        }
+        for len in lens {
+            for mode in [None, Some(m as u8)] {
+                cases.push(Case { input: spaces::Input::Fam(Family::Ctr, m as u8, len as u32), opts: Opts { mode, ecl: None, version: None, mask: None, order: 0 } });
+            }
+        }
+    }
+    Space { name: "S_default_level_big".into(), describe: "no level given x 3 modes (automatic and forced) x lengths -1/0/+1 around the version-40 capacity at Q, M and L and at the Q capacity of versions 10, 20, 30, 39".into(), cases, exhaustive: true }
+}
+
+/// forced masks on uniform payloads that fill the symbol (where a forced mask is as bad as it gets for the penalty)
+pub fn s_forced_mask_extreme() -> Space {
+    let mut cases = vec![];
+    for v in [1usize, 2, 5, 10, 20, 40] {
+        for e in 0..4usize {
+            let len = r::cap(v, e, 2);
+            for fill in [0x00u8, 0xFF, 0xAA, 0x55] {
+                for k in 0..8u8 {
+                    cases.push(Case::new(vec![fill; len], Opts { mode: Some(2), ecl: Some(e as u8), version: Some(v as u8), mask: Some(k), order: 0 }));
+                }
+            }
+        }
+    }
+    Space { name: "S_forced_mask_extreme".into(), describe: "versions {1,2,5,10,20,40} x 4 levels x byte payloads of full capacity made of 0x00 / 0xFF / 0xAA / 0x55 x all 8 forced masks".into(), cases, exhaustive: true }
 }
 
 /// forced-version spaces of C05
@@ -272,6 +315,7 @@ pub fn c05(ctx: &Ctx) -> Collector {
     run_space(&col, 6, &spaces::s_order(ctx.tier.thorough()), &p, false, &no_extra);
     run_space(&col, 7, &s_len_utf8(ctx.tier.thorough()), &p, false, &no_extra);
     run_space(&col, 8, &s_long_foreign(ctx.tier.thorough()), &p, false, &no_extra);
+    run_space(&col, 9, &s_default_level_big(), &p, false, &no_extra);
     if ctx.tier.thorough() {
         run_space(&col, 4, &spaces::s_len(Family::Hi, 7200), &p, false, &no_extra);
     }
@@ -301,6 +345,7 @@ pub fn c06(ctx: &Ctx) -> Collector {
     run_histories(&col, 22, &p, ctx.tier.thorough());
     run_space(&col, 23, &spaces::s_antimask(ctx.tier.thorough()), &p, true, &no_extra);
     run_space(&col, 24, &s_corpus(), &p, true, &no_extra);
+    run_space(&col, 26, &spaces::s_cw(ctx.tier.thorough()), &p, true, &no_extra);
     if !ctx.tier.thorough() {
         run_space(&col, 25, &s_forced_versions(false), &p, true, &no_extra);
     }
@@ -583,6 +628,8 @@ pub fn c10(ctx: &Ctx) -> Collector {
     run_space(&col, 24, &s_len_utf8(ctx.tier.thorough()), &p, false, &no_extra);
     run_space(&col, 26, &spaces::s_forced_dense(ctx.tier.thorough()), &p, false, &no_extra);
     run_space(&col, 27, &spaces::s_antimask(ctx.tier.thorough()), &p, false, &no_extra);
+    run_space(&col, 30, &spaces::s_cw(ctx.tier.thorough()), &p, false, &no_extra);
+    run_space(&col, 31, &s_default_level_big(), &p, false, &no_extra);
     seeded_supplement(ctx, &col, 20, &p, false);
     col
 }
@@ -598,6 +645,9 @@ pub fn c15(ctx: &Ctx) -> Collector {
     run_space(&col, 1, &spaces::s_opt(ctx.tier.thorough()), &p, true, &no_extra);
     run_space(&col, 2, &spaces::s_small(&[None], false), &p, true, &no_extra);
     run_histories(&col, 4, &p, ctx.tier.thorough());
+    // uniform and crafted payloads (a placement that treats runs of equal codewords specially must still label them)
+    run_space(&col, 6, &spaces::s_cap_families(ctx.tier.thorough()), &p, true, &no_extra);
+    run_space(&col, 7, &spaces::s_cw(ctx.tier.thorough()), &p, true, &no_extra);
     callback_view(&col, ctx.tier.thorough());
     if ctx.tier.thorough() {
         run_space(&col, 3, &spaces::s_len(Family::Ctr, 7200), &p, true, &no_extra);
